@@ -4,6 +4,7 @@ CONSTANTS
   Bases <- BasesThorough
   EvalBases <- EvalThorough
   EvalBits = {0, 1, 2, 3, 4, 5, 6, 7}
+  EvalMasks = {1, 90, 128, 255}
   Seed <- SeedT2
 INVARIANTS Rejects Emit
 CHECK_DEADLOCK FALSE
